@@ -131,13 +131,16 @@ def run_history(hist, bind, stopsig, wk="sync", nopid=False, extra_args=()):
             staffed = set()
             t_end = time.time() + 1.5
             while time.time() < t_end and len(staffed) < len(al):
-                booted = set(s.booted())
-                for n in al:
-                    if n not in staffed and any(c in booted and c not in masters.values() and rp.proc_state(c) not in (None, "Z")
-                                                for c in rp.children_of(masters[n])):
+                kids = {n: [c for c in rp.children_of(masters[n]) if c not in masters.values()] for n in al if n not in staffed}
+                booted = set(s.booted())            # (read after the process table: a marker is there once the worker has booted)
+                for n, cs in kids.items():
+                    if any(c in booted and rp.proc_state(c) not in (None, "Z") for c in cs):
                         staffed.add(n)
                 if len(staffed) < len(al):
-                    time.sleep(0.05)
+                    time.sleep(0.02)
+            if "--max-requests" in extra_args:
+                # (workers come and go: a probe may have been answered by a worker that has left since)
+                served |= staffed
             return {"e": "chk", "staffed": sorted(staffed), "alive": al, "base": name_of(read_pid(s.pidfile)), "two": name_of(read_pid(str(s.pidfile) + ".2")),
                     "sock": bool(s.sockpath and os.path.exists(s.sockpath)), "refused": refused, "nmasters": len(al),
                     "serving": sorted(served)}
